@@ -118,6 +118,7 @@ int main(int argc, char **argv)
 		gs_family_tokens(3, 0, mine, &idx, check_stream, NULL);
 	gs_family_matches(v_thorough, mine, &idx, check_stream, NULL);
 	gs_family_zlib(v_thorough, mine, &idx, check_stream, NULL);
+	gs_family_isal(v_thorough, mine, &idx, check_stream, NULL);
 	if (v_shard == 0) {
 		v_sample("F2 stored(32768) + dyn-long-codes[M(258,32768) La M(3,1)] mode=GZIP api=isal_inflate cpu=avx2 junk=5000: output == ref == zlib, FINISH, position == end of trailer, crc == CRC-32");
 		v_sample("F3 dyn tokens=T0 ll_shape=1(depth 15) d_shape=2(11..15-bit codes) style=1(16/17/18 runs) hlit286=1 hdist30=1");
